@@ -11,6 +11,12 @@ for f in sorted(glob.glob(os.path.join(VERIF, "seeded", "*", "meta.json"))):
     kind = "concrete replay" if "no-failing-input-found" not in rep and m["target_property_caught"] else ("no-failing-input-found" if m["target_property_caught"] else "MISSED")
     line = re.search(r"line=(.*)$", rep)
     rows.append(f"| {m['id']} | {first} | {', '.join(m['caught_by']) or '—'} | {kind} | `{(line.group(1)[:60] if line else '')}` |")
-print("| change | what it does (first line of the author's note) | reported by | target check | replay line (shrunk) |")
-print("|---|---|---|---|---|")
-print("\n".join(rows))
+table = "| change | what it does (first line of the author's note) | reported by | target check | replay line (shrunk) |\n|---|---|---|---|---|\n" + "\n".join(rows)
+import sys
+if "--design" in sys.argv:
+    p = os.path.join(VERIF, "DESIGN.md"); s = open(p).read()
+    a = s.index("<!-- SEEDED-TABLE-BEGIN -->") + len("<!-- SEEDED-TABLE-BEGIN -->"); b = s.index("<!-- SEEDED-TABLE-END -->")
+    open(p, "w").write(s[:a] + "\n" + table + "\n" + s[b:])
+    print("DESIGN.md table updated:", len(rows), "rows")
+else:
+    print(table)
